@@ -1,7 +1,7 @@
 (* C10 — Progress after stabilisation: leader elected, logs converge, proposals commit.
    Only pinned statements (generated verbatim from the proof files by
-   tools_c10/genprops.py) and non-vacuity Examples; proofs live in M/RaftProofsC10.v and
-   M/RaftProofsC10Pair.v.  The models M/Raft.v, M/Progress.v, M/Inflights.v, M/RaftLog.v
+   tools_c10/genprops.py) and non-vacuity Examples; proofs live in M/RaftProofsC10.v,
+   M/RaftProofsC10Pair.v and M/RaftProofsC10Star.v.  The models M/Raft.v, M/Progress.v, M/Inflights.v, M/RaftLog.v
    are taken as given.
 
    WHAT THE PROPERTY SAYS AND WHAT CAN BE A THEOREM.
@@ -123,22 +123,69 @@
       window of stale indexes), and xp_run_* compute the 188 rounds: no panic,
       matched = 5, F's log and commit index reach 5.
 
+   7. star_convergence / star_commit_all (M/RaftProofsC10Star.v): the pair theorem lifted to
+      ONE leader L and a LIST of followers Fs (distinct ids, voters or learners, all tracked
+      by L, same term) under the lock-step schedule [star_round]:
+        (i) every message L has queued is delivered to its addressee among Fs, in order;
+        (ii) the replies of each follower go back to L, follower after follower in list
+             order; (iii) everybody ticks once.
+      star_frame (the independence lemma): while L handles a response of ANOTHER follower,
+      follower f's Progress keeps its state, its matched and - while probing - its
+      next_idx, and the invariant of the pair proof; whatever L queues for f meanwhile is a
+      sound MsgAppend, built from (L's log, f's Progress) only.  The stronger wording "never
+      changes f's next_idx / window" is FALSE and is refuted by a concrete witness
+      (other_response_moves_next_refuted: an acknowledgement of follower 2 advances the
+      commit index, bcast_append sends entries 3..5 to the replicating follower 3, whose
+      next_idx goes 3 -> 6 and whose window fills); this is harmless: the measure of the
+      pair proof ignores next_idx while replicating.  Hence every follower's measure goes
+      down independently, every heartbeat_timeout + 2 rounds.
+      star_convergence: under the hypotheses of pair_convergence for L (star_leader) and
+      for each follower (star_start: nothing in flight, Progress Probe or Replicate in any
+      pause / window state, log agreeing up to its frontier, log of L not compacted past its
+      matched, ...), if N0 rounds run without a panic, N0 >= (heartbeat_timeout + 2) *
+      pair_measure_bound last_index matched_F for EVERY follower F (the MAXIMUM of the pair
+      bounds, not their sum), then for every follower: matched = last_index L and its log
+      agrees with L's up to last_index L; L is still the leader.
+      star_commit_all (the commit clause): if in addition the last entry of L's log has L's
+      term (the no-op of become_leader), L's own Progress has matched = last_index (its log
+      is persisted - persistence itself is not modelled, this is assumed of the start state
+      and is preserved), the voters are L and (some of) the followers, and L's commit index
+      is consistent with the Progress map at the start (CommitInv: <= last_index, and
+      = last_index if every voter's matched already is), then at the end of the N0 rounds
+      committed L = last_index, and after heartbeat_timeout + 1 more rounds every follower's
+      commit index is last_index too (heartbeats carry min (matched, committed)).  Quorum
+      fact used: when every voter's matched is q, the quorum index of the (joint, with or
+      without group commit) configuration is q (mci_all_at); the commit then happens in the
+      maybe_commit of the acknowledgement that made the last voter reach q
+      (leader_step_CommitInv).  follower_steps_commit: a follower's commit index never goes
+      back and reaches the commit index of every heartbeat it handles.
+      Non-vacuity: sp_commit_applies instantiates every hypothesis on a 3-node star (leader,
+      a follower tracked as a PAUSED probe with a divergent entry, a follower tracked as
+      Replicate with a FULL window of stale indexes); sp_run computes the 191 rounds: no
+      panic, everybody has the 5 entries and commit index 5.
+
    NOT PROVED (beyond the items marked above).
    * the probabilistic clause: eventually exactly one leader (see top);
-   * whole-cluster convergence: every running member's log and commit index reach the
-     leader's; only the pair (one leader, one follower, nothing else interfering) is done;
+   * whole-cluster convergence BEYOND the star: the followers only talk to the leader
+     (no second leader, no candidate, no message between followers), L's own log must
+     already be persisted (own matched = last_index) for the commit clause;
    * "a newly proposed entry is committed and handed to the application on every running
-     member": no proposal arrives in the pair schedule, and commit / apply are not part of
-     its conclusion (the example runs show the commit index arriving);
-   * the pair theorem with messages already in flight at the start, with batch_append, with
-     check_quorum, with pending read-index requests, with a compacted leader log (snapshot
-     path inside the run), with a pending window shrink; RawNode-level (Ready / persist /
-     advance) scheduling;
-   * "within a bounded number of ELECTION timeouts": the pair bound is in rounds (ticks),
+     member": no proposal arrives during the star run.  Not done because (a) after a
+     proposal the leader's own matched lags until on_persist_entries, so the commit needs the
+     MAJORITY form of the quorum argument (only the all-voters form is proved), and the
+     persistence step lives at RawNode level; (b) a follower may still hold old entries
+     ABOVE the leader's former last index, about which the agreement invariant says nothing.
+     Application hand-over (commit_apply / Ready) is not modelled in the schedule;
+   * the pair / star theorems with messages already in flight at the start, with
+     batch_append, with check_quorum, with pending read-index requests, with a compacted
+     leader log (snapshot path inside the run), with a pending window shrink; RawNode-level
+     (Ready / persist / advance) scheduling;
+   * "within a bounded number of ELECTION timeouts": the bounds are in rounds (ticks),
      quadratic in last_index; no attempt at the tight bound. *)
 From RV Require Import Base.Prelude Base.IdSet M.Util M.Proto M.MemStorage M.MemStorageProofs
   M.Inflights M.InflightsProofs M.Progress M.RaftLog M.RaftLogProofs M.Quorum M.ConfChange
-  M.Msg M.Raft M.RaftProofs M.RaftProofsC15 M.RaftProofsC09 M.RaftProofsC10 M.RaftProofsC10Pair.
+  M.Msg M.Raft M.RaftProofs M.RaftProofsC15 M.RaftProofsC09 M.RaftProofsC10 M.RaftProofsC10Pair
+  M.RaftProofsC10Star.
 From RV Require M.QuorumProofs.
 From RecordUpdate Require Import RecordSet.
 Import RecordSetNotations.
